@@ -309,7 +309,10 @@ where
     fn call(&mut self, req: Req) -> Self::Future {
         let limiter = self.limiter.clone();
         let config = Arc::clone(&self.config);
-        let mut inner = self.inner.clone();
+        // Call the instance that was driven to readiness by poll_ready and leave a
+        // fresh clone behind (a clone has not been polled ready)
+        let clone = self.inner.clone();
+        let mut inner = std::mem::replace(&mut self.inner, clone);
 
         Box::pin(async move {
             // Try to acquire a permit
